@@ -77,7 +77,7 @@ def make_case(seed, index, tier):
             ticker['early'] = rng.choice([None, None, 0, 1, period + 1])
         return {'seed': seed, 'index': index, 'tier': tier, 'tickers': tickers,
                 'start': rng.choice([2 ** 60, 2 ** 53 + 1, 1700000000 * 10 ** 9])}
-    return {'seed': seed, 'index': index, 'tier': tier, 'start': rng.choice([0, 0, 0.375, 1e6, 1e10, 2.0 ** 45]),
+    return {'seed': seed, 'index': index, 'tier': tier, 'start': rng.choice([0, 0, 0.375, 1e6, 1e10, 2.0 ** 45, -10, -5, -1, -0.375]),
             'tickers': tickers}
 
 
@@ -95,10 +95,14 @@ def expected(spec, begin):
     last = begin
     for duration in map(num, spec['durations']):
         if spec['how'] == 'interval':
-            due = last + period
-            if due < now:
+            # (what is waited for is the span left until the next grid point: with inexact
+            # periods `now + (due - now)` may differ from `due` in the last digit)
+            remaining = last + period - now
+            if remaining != remaining:
+                remaining = 0       # at infinite time: the grid point is "now"
+            if remaining < 0:
                 return ticks, 'IntervalExceeded'
-            now = due
+            now = now + remaining
             last = now
         else:
             now = now + period
